@@ -380,8 +380,9 @@ harness('rt_asan_general', 'engines/rthreads/rthreads.cpp', 'gcc-asan-general')
 def _rt2(kinds, cfgs, q, t):
     return [Sub('rt_' + c, 'rt_' + c, shards=(1, 2), cases=(q, t), maxsize=(100, 100), kind='stress', env={'VERIF_KINDS': kinds, 'VERIF_CONFIG_TSAN': 1 if 'tsan' in c or 'asan' in c else 0}, timeout=(900, 3600)) for c in cfgs]
 PROPS['C02'].subs += _rt2('rwrec', ['tsan_c11', 'tsan_general', 'plain_c11'], 25, 150)
-PROPS['C02'].subs += [Sub('rt_many_' + c, 'rt_' + c, shards=(1, 1), cases=(60, 400), maxsize=(100, 100), kind='stress', env={'VERIF_KINDS': 'rwmany', 'VERIF_CONFIG_TSAN': 0}, timeout=(900, 3600)) for c in ('asan_c11', 'asan_general')]
+PROPS['C02'].subs += [Sub('rt_many_' + c, 'rt_' + c, shards=(1, 1), cases=(60, 400), maxsize=(100, 100), kind='stress', env={'VERIF_KINDS': 'rwmany,rwmany,rwmany,rwwait', 'VERIF_CONFIG_TSAN': 0}, timeout=(900, 3600)) for c in ('asan_c11', 'asan_general')]
 PROPS['C03'].subs += _rt2('bbuf', ['tsan_c11', 'plain_c11'], 12, 200)
+PROPS['C03'].subs += [Sub('rt_burst_' + c, 'rt_' + c, shards=(1, 1), cases=(2, 6), maxsize=(100, 100), kind='stress', env={'VERIF_KINDS': 'sigburst', 'VERIF_CONFIG_TSAN': 0}, timeout=(900, 3600)) for c in ('plain_c11',)]
 PROPS['C05'].subs += _rt2('thr', ['tsan_c11', 'asan_c11', 'plain_c11'], 20, 150)
 PROPS['C02'].rule += ' Many-holds sub-check (native and general model, ASan): 1 .. 16385 simultaneous read holds (powers of two and neighbours; lock and trylock alternating): a writer trylock is refused while any hold is outstanding and admitted when all are released. Real-thread sub-checks: generated (threads, rounds, noise) reader/writer programs on real threads under ThreadSanitizer for the native and the general implementation, plus a plain -O2 run: record race or lost update = violation.'
 PROPS['C03'].rule += ' Real-thread sub-checks: generated bounded-buffer programs (capacity 1-3, signal/broadcast by seed) on real threads under ThreadSanitizer and plain -O2: items conserved, no race report.'
@@ -407,6 +408,9 @@ _ADD = {
  'C19': ' The sleep lower bound is exact (elapsed time is measured around the call); the ipc_new scenario also opens the now existing segment under the same interruptions and requires the uninterrupted outcome (size, bytes, names survive a non-owner free).',
 }
 _ADD6 = {
+ 'C03': ' Signal-burst sub-check (real threads): the consumer sleeps in wait, the producer issues B signals (or broadcasts) under one lock hold, B in {1, 2, 255, 256, 257, 1000, 65535, 65536, 65537, 131072, 196608}; verdict by state: the consumer still sleeps in a futex wait (two looks one second apart) with its predicate true.',
+ 'C02': ' Reader-behind-waiting-writer sub-check (real threads): reader A holds, writer W sleeps inside writer_lock, reader B calls reader_lock - verdict by state: B sleeps in a futex wait (two looks one second apart) while only A holds the lock.',
+ 'C01': ' Long-hold litmus: every case holds the spinlock (until the waiter burnt the hold time in CPU) and then the mutex (whole hold time on the wall clock, the waiter asleep in its lock call).',
  'C05': ' Every real-thread round also runs a thread not started by plibsys that calls p_uthread_current twice (same handle), with an explicit reference kept across its exit / dropped before it / none (sanitizers decide a handle released early).',
  'C06': ' The race step alternates OPEN-mode and CREATE-mode opens parked at pause points 1..6 while the owner frees the name: a CREATE-mode open succeeds at every point and carries the given value while its name exists (enumerated).',
  'C08': ' Every read buffer carries a canary behind the reported count: bytes beyond min(len, used) are not the read\'s to write.',
